@@ -5,11 +5,30 @@ PID = "C17"
 # B = the trees of depth exactly 3 (three nested composites, <= 2 plain leaves; weight class 6 of the same order) (20 %)
 TIERS = {"quick": (6, 2, 1, 1, 40, 12), "thorough": (8, 5, 3, 2, 1100, 16)}
 ASAN = "detect_leaks=0:abort_on_error=0:quarantine_size_mb=32"
+def replay(exe, path):
+    """./check C17 --replay replays/C17/<tier>_<n>.replay : re-run every recorded (program, history) and print its full trace and verdict."""
+    import re, subprocess
+    tier = "thorough" if os.path.basename(path).startswith("thorough") else "quick"
+    depth, maxw, maxc, maxd, dl, np = TIERS[tier]
+    for line in open(path):
+        m = re.match(r"(\S+) :: program#(\d+) (.*?) ; history: (.*?) ; ", line)
+        if not m:
+            continue
+        fam = [str(depth), "6", "3", "3"] if m.group(1).startswith("B:") else [str(depth), str(maxw), str(maxc), str(maxd)]
+        argv = [exe, "replay"] + fam + [m.group(2), m.group(4)] + (["3"] if m.group(1).startswith("B:") else [])
+        out = subprocess.run(argv, capture_output=True, env=dict(os.environ, ASAN_OPTIONS=ASAN)).stdout.decode()
+        print(out.strip())
+        if m.group(3) not in out:
+            print("NOTE: program text differs from the recorded one (%s): the family parameters of the tier changed" % m.group(3))
+        print()
+
 def main(tier, args):
     t0 = time.time()
     exe = vf.build("C17/actions", [vf.VERIF + "/checks/C17/harness.cpp"],
                    vf.module_sources("flow/action.cpp", "flow/actions", "event", "util/variables.cpp", "util/string.cpp", "util/json.cpp"),
                    mode="asan", plain_srcs=[vf.VERIF + "/engine/sched/log_stub.cpp"])
+    if args.replay:
+        return replay(exe, args.replay)
     depth, maxw, maxc, maxd, dl, np = TIERS[tier]
     dl = int(os.environ.get("VERIF_DEADLINE_S", dl))
     res = vf.Result(); log = open(vf.BUILD + "/C17/log.txt", "w")
